@@ -58,6 +58,48 @@ fn check_request(line: &[u8]) -> Option<String> {
         }
     }
 }
+/// A well-formed head followed by `tail`, delivered through the real read_http_head in pieces cut at `cuts`: the parsed
+/// head must expose exactly the method, target and fields sent (names verbatim, values OWS-stripped, in order) and the
+/// bytes after the head must still be there for the next message -- however the bytes were split.
+fn check_stream(head_idx: usize, cuts: &[usize]) -> Option<String> {
+    use verif_replay::{block_on, ScriptReader, Step};
+    let heads: [(&str, &str, &[(&str, &str, &str)]); 3] = [
+        ("GET", "/a/b?x=1&y=2", &[("Host", " ", "example.com"), ("x-Custom_1", "\t ", "v 1\tz"), ("Accept", "", "*/*"), ("x-Custom_1", " ", "second")]),
+        ("POST", "/", &[("content-length", " ", "3")]),
+        ("M", "/p", &[]),
+    ];
+    let (method, target, fields) = heads[head_idx % heads.len()];
+    let tail: &[u8] = if head_idx % 2 == 0 { b"GET /next HTTP/1.1\r\n\r\n" } else { b"abcNEXT" };
+    let mut msg = format!("{method} {target} HTTP/1.1\r\n").into_bytes();
+    for (n, ows, v) in fields { msg.extend_from_slice(format!("{n}:{ows}{v}{}\r\n", if v.len() % 2 == 0 { " " } else { "" }).as_bytes()); }
+    msg.extend_from_slice(b"\r\n");
+    let head_len = msg.len();
+    msg.extend_from_slice(tail);
+    let desc = format!("stream head={head_idx} cuts={cuts:?}");
+    let mut steps = Vec::new();
+    let mut prev = 0;
+    for &c in cuts { if c > prev && c < msg.len() { steps.push(Step::Data(msg[prev..c].to_vec())); prev = c; } }
+    steps.push(Step::Data(msg[prev..].to_vec()));
+    steps.push(Step::Eof);
+    let r = std::panic::catch_unwind(|| {
+        let mut buf: FixedBuf<4096> = FixedBuf::new();
+        let mut rd = ScriptReader::new(steps);
+        let res = block_on(servlin::internal::read_http_head(&mut buf, &mut rd));
+        // what is still available for the next message: buffered bytes + what the reader has not delivered yet
+        let mut rest = buf.readable().to_vec();
+        for st in rd.steps.iter() { if let Step::Data(d) = st { rest.extend_from_slice(d) } }
+        (res, rest)
+    });
+    let (res, rest) = match r { Ok(x) => x, Err(_) => return Some(format!("{desc} expected=parsed actual=panic")) };
+    let h = match res { Ok(h) => h, Err(e) => return Some(format!("{desc} expected=parsed actual={e:?}")) };
+    let got_target = format!("{}{}", h.url.path(), h.url.query().map(|q| format!("?{q}")).unwrap_or_default());
+    if h.method != method || got_target != target { return Some(format!("{desc} expected={method} {target} actual={} {got_target}", h.method)); }
+    let want: Vec<(String, String)> = fields.iter().map(|(n, _, v)| (n.to_string(), v.to_string())).collect();
+    let got: Vec<(String, String)> = h.headers.iter().map(|x| (x.name.as_str().to_string(), x.value.as_str().to_string())).collect();
+    if got != want { return Some(format!("{desc} expected=fields{want:?} actual=fields{got:?}")); }
+    if rest != msg[head_len..] { return Some(format!("{desc} expected=rest{:?} actual=rest{:?}", String::from_utf8_lossy(&msg[head_len..]), String::from_utf8_lossy(&rest))); }
+    None
+}
 fn hex(b: &[u8]) -> String { b.iter().map(|x| format!("{x:02x}")).collect() }
 fn unhex(s: &str) -> Vec<u8> { (0..s.len() / 2).map(|i| u8::from_str_radix(&s[2 * i..2 * i + 2], 16).unwrap()).collect() }
 fn main() {
@@ -65,6 +107,12 @@ fn main() {
     let args: Vec<String> = std::env::args().collect();
     if args.len() >= 3 && args[1] == "replay" {
         let w = args[2..].join(" ");
+        if w.starts_with("stream ") {
+            let hi: usize = w.split("head=").nth(1).unwrap().split(' ').next().unwrap().parse().unwrap();
+            let cs = w.split("cuts=[").nth(1).unwrap().split(']').next().unwrap();
+            let cuts: Vec<usize> = cs.split(',').filter_map(|x| x.trim().parse().ok()).collect();
+            match check_stream(hi, &cuts) { Some(m) => { println!("WITNESS {m}"); std::process::exit(1) } None => { println!("OK witness no longer fails"); std::process::exit(0) } }
+        }
         let line = unhex(w.split("line=").nth(1).unwrap().split(' ').next().unwrap());
         let r = if w.starts_with("field") { check_field(&line) } else { check_request(&line) };
         match r { Some(m) => { println!("WITNESS {m}"); std::process::exit(1) } None => { println!("OK witness no longer fails"); std::process::exit(0) } }
@@ -90,7 +138,14 @@ fn main() {
                  b"GET http://x/ HTTP/1.1", b"GET / HTTP/1.0", b"GET / HTTP/2", b"GET /", b"GET", b"", b"GET / HTTP/1.1 x", b"G(T / HTTP/1.1", b"GET /\xff HTTP/1.1", b"GET /%zz HTTP/1.1"] {
         n += 1; if let Some(m) = check_request(line) { if found.len() < 6 { found.push(m) } }
     }
-    let _ = thorough;
+    // whole heads through read_http_head: unsplit, every 2-way split, byte at a time, and (thorough) every 3-way split
+    for hi in 0..3usize {
+        n += 1; if let Some(m) = check_stream(hi, &[]) { if found.len() < 6 { found.push(m) } }
+        for c in 1..140usize { n += 1; if let Some(m) = check_stream(hi, &[c]) { if found.len() < 6 { found.push(m) } } }
+        let all: Vec<usize> = (1..140).collect();
+        n += 1; if let Some(m) = check_stream(hi, &all) { if found.len() < 6 { found.push(m) } }
+        if thorough { for c1 in 1..100usize { for c2 in (c1 + 1)..100usize { n += 1; if let Some(m) = check_stream(hi, &[c1, c2]) { if found.len() < 6 { found.push(m) } } } } }
+    }
     println!("EVALUATED {n}");
     for f in &found { println!("WITNESS {f}"); }
     std::process::exit(if found.is_empty() { 0 } else { 1 });
